@@ -112,7 +112,8 @@ func (m *Machine) ctxMethod(cd *ctxData, name string) *Native {
 	case "Deadline":
 		return &Native{Name: "ctx.Deadline", Fn: func(m *Machine, a []Value) Value {
 			if !cd.hasDL {
-				return Tuple{m.timeValue(0).(Struct), m.tt.False}
+				// no deadline: the zero time.Time (IsZero() holds), as the real contexts return
+				return Tuple{Struct{m.tt.Const(64, 0), m.tt.Const(64, 0), Ptr(nil)}, m.tt.False}
 			}
 			return Tuple{m.timeValue(cd.deadline), m.tt.True}
 		}}
